@@ -2297,6 +2297,14 @@ func (cs Conditions) inlineTagFilter(tags map[string]TagDetails, referenceTime t
 			}
 			continue
 		}
+		if len(td.Conditions.SubQueries()) > 1 {
+			// the query of the tag uses sub queries, "there is no stream x that ..." can't be expressed by
+			// alternatives when the filter is negated: such tags are decided before they are searched for
+			for i := range csNew {
+				csNew[i] = append(csNew[i], cc)
+			}
+			continue
+		}
 		// the conditions of the tag are relative to the time they were parsed at
 		tagConditionsSet := td.Conditions.InlineTagFilters(tags, td.ReferenceTime).withReferenceTime(td.ReferenceTime, referenceTime)
 		if c.Accept&uncertain == TagConditionAcceptUncertainFailing {
